@@ -387,6 +387,20 @@ async fn routing_and_faults(ctx: &Ctx, rng: &mut Rng, epmd: &net::EpmdTable, id:
                     if let Ok((_c, off)) = crate::refmodel::decode::ref_decode_prefix(&f[1..]) {
                         if let Ok((Val::Tuple(pt_), _)) = crate::refmodel::decode::ref_decode_prefix(&f[1 + off..]) {
                             let to = pt_[0].clone();
+                            // first, messages for pids that are *not* the call's: the same numbers under another creation,
+                            // serial, number or node name (an earlier incarnation, another era, another node). They are for
+                            // nobody and are dropped; the call still gets the reply that is really its own
+                            if let Val::Pid { node, id, serial, creation } = &to {
+                                let strays = [
+                                    Val::Pid { node: node.clone(), id: *id, serial: *serial, creation: creation.wrapping_add(1) },
+                                    Val::Pid { node: node.clone(), id: *id, serial: serial.wrapping_add(1), creation: *creation },
+                                    Val::Pid { node: format!("{}x", node), id: *id, serial: *serial, creation: *creation },
+                                    Val::Pid { node: node.clone(), id: id.wrapping_add(1 << 20), serial: *serial, creation: *creation },
+                                ];
+                                let stray = &strays[(uid as usize) % strays.len()];
+                                let sc = Val::Tuple(vec![Val::int(2), Val::atom(""), stray.clone()]);
+                                let _ = peer.write_frame4(&pt(&sc, Some(&Val::Tuple(vec![Val::atom("rex"), Val::atom("for_somebody_else")])))).await;
+                            }
                             let reply = Val::Tuple(vec![Val::atom("rex"), Val::int(uid)]);
                             let control = Val::Tuple(vec![Val::int(2), Val::atom(""), to]);
                             let _ = peer.write_frame4(&pt(&control, Some(&reply))).await;
